@@ -54,8 +54,10 @@ class Interpreter:
         :param code: Michelson code
         """
         result = InterpreterResult(stdout=[])
-        stack_backup = deepcopy(self.stack)
-        context_backup = deepcopy(self.context)
+        # NOTE: copy under a single memo so that big_maps of the stack backup are attached to the context backup
+        memo: dict = {}
+        context_backup = deepcopy(self.context, memo)
+        stack_backup = deepcopy(self.stack, memo)
 
         try:
             code_section = CodeSection.match(michelson_to_micheline(code))
